@@ -49,6 +49,9 @@ type Scenario struct {
 
 var scenarioGens = map[string]func(tier string) []*Scenario{}
 
+// freeParts run sequential code of the rewritten build outside the scheduler (key: "<prop>/<part>").
+var freeParts = map[string]func(c *rep.Ctx){}
+
 type explorer struct {
 	c        *rep.Ctx
 	states   map[uint64]struct{}
@@ -239,6 +242,16 @@ func main() {
 	mc.MemOn = true
 	if *replay != "" {
 		os.Exit(doReplay(*replay))
+	}
+	if fp, ok := freeParts[*prop+"/"+*part]; ok {
+		// parts that run the rewritten build free (no scheduler): fault enumeration over the mos / io seams
+		c := rep.New(*prop, *part, *tier, *shard, *nshards, *seed, *deadline)
+		fp(c)
+		if err := c.Write(*out); err != nil {
+			fmt.Fprintln(os.Stderr, err)
+			os.Exit(3)
+		}
+		return
 	}
 	gen, ok := scenarioGens[*prop]
 	if !ok {
